@@ -352,6 +352,34 @@ Proof. exact ex_tuple_id. Qed.
 Example C14_ex_tuple_mapper : forall tbl, ~ sm_json (sm_of (SMtuple tbl)).
 Proof. exact sm_tuple_not_json. Qed.
 
+(* the inverse-pair hypothesis asked only for the dicts that occur
+   ([inverse_on_c]: the node's head dict, with or without a "children" entry
+   appended) – weaker than [inverse_on], hence a stronger round-trip theorem; the
+   table-driven decoders the correspondence runs satisfy it (Example below),
+   which they cannot do for [inverse_on] (arbitrary association lists) *)
+Theorem C14_roundtrip_occurring_dicts : forall (sm : smapper) (dd : dmapper) (next : nat) (f : forest),
+  sm_json sm -> sm_kids sm -> sibuniq_f f -> Forall (allinfo (inverse_on_c sm dd)) f ->
+  exists f', tree_from_dict dd next (map json_rt (to_dict_list sm f)) = inl f' /\
+             Forall2 iso f f' /\ ids f' = seq (S next) (size_f f).
+Proof. exact roundtrip_c. Qed.
+Print Assumptions C14_roundtrip_occurring_dicts.
+
+Theorem C14_inverse_on_implies_occurring : forall sm dd i, inverse_on sm dd i -> inverse_on_c sm dd i.
+Proof. exact inverse_on_weaken. Qed.
+Print Assumptions C14_inverse_on_implies_occurring.
+
+(* the decoder [run14] executes for the mapper kind "extra" (CaseC14.dd_for /
+   dd_head over its table), on the 4-node example tree with a clone and an
+   explicit id: hypotheses hold, so the theorem covers that correspondence run *)
+Example C14_ex_table_decoder :
+  sm_json ex_sm_extra /\ sm_kids ex_sm_extra /\
+  Forall (allinfo (inverse_on_c ex_sm_extra (dd_for (SMextra ex_tbl) ex_dt))) ex_g /\
+  exists f', tree_from_dict (dd_for (SMextra ex_tbl) ex_dt) 4 (map json_rt (to_dict_list ex_sm_extra ex_g)) = inl f' /\
+             Forall2 iso ex_g f'.
+Proof.
+  exact (conj ex_sm_extra_json (conj ex_sm_extra_kids (conj ex_table_decoder_inverse ex_table_decoder_roundtrip))).
+Qed.
+
 (* the hypothesis of the round-trip theorems is the C03 invariant predicate of
    the mutation machine (preserved by every operation: C01/C03) *)
 Theorem C14_sibuniq_is_C03_invariant : forall f : forest, sibuniq_f f <-> WF.SU f.
